@@ -5,6 +5,9 @@
 package main
 
 import (
+	"reflect"
+	"unsafe"
+
 	"encoding/json"
 	"errors"
 	"flag"
@@ -733,11 +736,150 @@ func main() {
 	tier := flag.String("tier", "quick", "quick|thorough")
 	replayF := flag.String("replay", "", "replay a violation file")
 	raceBin := flag.String("racebin", "", "path of the -race build of this harness")
+	bin386 := flag.String("bin386", "", "path of the GOARCH=386 build of this harness")
 	flag.Parse()
 	if *replayF != "" {
 		os.Exit(doReplay(*replayF))
 	}
+	bin386Path = *bin386
 	os.Exit(check(*prop, *tier, *raceBin))
+}
+
+// counterAcceleration: an operation whose only effect on the object is to bump an integer field cannot be
+// enumerated up to that field's limit (2^32 failing Close calls ...) - so the field is found by comparing the
+// object's integer fields before and after the operation, set close to the limits of its type, and the operation
+// is applied a few more times across the wrap.  Here: Close after Close, and Maintain after Close.
+func counterAcceleration(run *ev.Run, prop string) {
+	type probe struct {
+		name string
+		op   func(r *libaudit.Reassembler) error
+	}
+	probes := []probe{{"Close", func(r *libaudit.Reassembler) error { return r.Close() }}, {"Maintain", func(r *libaudit.Reassembler) error { return r.Maintain() }}}
+	for _, pr := range probes {
+		h := newHarness(Program{MaxInFlight: 2})
+		h.push(seqA, 1300, true)
+		if err := h.r.Close(); err != nil {
+			run.Errorf("counter acceleration: first Close failed: %v", err)
+			return
+		}
+		ints := func() map[string]reflect.Value {
+			out := map[string]reflect.Value{}
+			var walk func(v reflect.Value, path string, depth int)
+			walk = func(v reflect.Value, path string, depth int) {
+				if depth > 6 {
+					return
+				}
+				switch v.Kind() {
+				case reflect.Ptr, reflect.Interface:
+					if !v.IsNil() && v.Type() != reflect.TypeOf(h) {
+						walk(v.Elem(), path, depth+1)
+					}
+				case reflect.Struct:
+					if v.Type() == reflect.TypeOf(*h) {
+						return
+					}
+					for i := 0; i < v.NumField(); i++ {
+						f := v.Field(i)
+						if f.CanAddr() {
+							f = reflect.NewAt(f.Type(), unsafe.Pointer(f.UnsafeAddr())).Elem()
+						}
+						walk(f, path+"."+v.Type().Field(i).Name, depth+1)
+					}
+				case reflect.Int, reflect.Int8, reflect.Int16, reflect.Int32, reflect.Int64, reflect.Uint, reflect.Uint8, reflect.Uint16, reflect.Uint32, reflect.Uint64, reflect.Uintptr:
+					if v.CanSet() {
+						out[path] = v
+					}
+				}
+			}
+			walk(reflect.ValueOf(h.r), "Reassembler", 0)
+			return out
+		}
+		before := map[string]int64{}
+		for p, v := range ints() {
+			if v.CanInt() {
+				before[p] = v.Int()
+			} else {
+				before[p] = int64(v.Uint())
+			}
+		}
+		_ = pr.op(h.r)
+		for p, v := range ints() {
+			var now int64
+			if v.CanInt() {
+				now = v.Int()
+			} else {
+				now = int64(v.Uint())
+			}
+			if now == before[p] {
+				continue
+			}
+			// the field moved: jump it to just below every limit of its width and go on
+			bits := v.Type().Bits()
+			var limits []int64
+			if v.CanInt() {
+				limits = []int64{1<<(bits-1) - 2, -2, -1 << (bits - 1)}
+			} else {
+				limits = []int64{1<<(bits-1) - 2, -2} // as bit patterns: 0x7f..fe, 0xff..fe
+			}
+			for _, lim := range limits {
+				if v.CanInt() {
+					v.SetInt(lim)
+				} else {
+					v.SetUint(uint64(lim) & (1<<bits - 1))
+				}
+				for k := 0; k < 5; k++ {
+					if err := h.r.Close(); err == nil {
+						run.Report(ev.Violation{Sig: prop + " close-success-count", What: fmt.Sprintf("the field %s changes with every %s call on a closed Reassembler; set to %d (close to a limit of its %d-bit type) and followed by %d more Close calls, a Close call returned nil again: more than one Close succeeds once enough calls have been made", p, pr.name, lim, bits, k+1), Replay: map[string]interface{}{"field": p, "value": lim}})
+						return
+					}
+					if err := h.r.Maintain(); err == nil {
+						run.Report(ev.Violation{Sig: prop + " maintain-after-close-nil", What: fmt.Sprintf("the field %s changes with every %s call on a closed Reassembler; set to %d (close to a limit of its %d-bit type), Maintain reports an open Reassembler again after %d more Close calls", p, pr.name, lim, bits, k+1), Replay: map[string]interface{}{"field": p, "value": lim}})
+						return
+					}
+				}
+			}
+			run.Add("traces_validated_against_impl", int64(len(limits)))
+		}
+	}
+	run.Set("counter_acceleration", "integer fields that move under Close/Maintain on a closed object are set next to the limits of their type")
+}
+
+var bin386Path string
+
+// pass386 runs the free-running driver bodies (no scheduler, real sync/atomic) of a slice of the programs on a
+// 32-bit build of the library: any crash there (unaligned 64-bit atomic operation, int overflow ...) is a
+// violation of "no deadlocks ... every message delivered" on a platform Go supports.
+func pass386(run *ev.Run, prop string, progs []Program) {
+	if bin386Path == "" || run.NumSigs() > 0 {
+		run.Set("pass_32bit_build", "skipped")
+		return
+	}
+	var sel []Program
+	for i, p := range progs {
+		if len(p.Threads) <= 2 && !p.PileUp && !p.PanicOnce && (i%7 == 0 || p.Timeout > 0 || p.CloserStream || p.Wrap) {
+			sel = append(sel, p)
+		}
+	}
+	if len(sel) > 1500 {
+		sel = sel[:1500]
+	}
+	in, _ := json.Marshal(map[string]interface{}{"Progs": sel, "Reps": 1, "Seed": 1})
+	cmd := exec.Command(bin386Path)
+	cmd.Env = append(os.Environ(), "VERIF_RACE=1")
+	cmd.Stdin = strings.NewReader(string(in))
+	out, err := cmd.CombinedOutput()
+	s := string(out)
+	run.Set("pass_32bit_build", fmt.Sprintf("%d programs free-running on a GOARCH=386 build", len(sel)))
+	if err != nil || strings.Contains(s, "panic:") || strings.Contains(s, "fatal error:") {
+		i := strings.Index(s, "panic:")
+		if i < 0 {
+			i = strings.Index(s, "fatal error:")
+		}
+		if i < 0 {
+			i = 0
+		}
+		run.Report(ev.Violation{Sig: prop + " crash-on-32-bit-build", What: "the driver programs, free-running on a GOARCH=386 build of the library, crashed (" + fmt.Sprint(err) + "):\n" + tailHead(s[i:], 2500), Replay: "GOARCH=386 build, free-running driver programs"})
+	}
 }
 
 func check(prop, tier, raceBin string) int {
@@ -884,6 +1026,8 @@ func check(prop, tier, raceBin string) int {
 		run.Set("race_pass_iterations_sampled", 0)
 		run.Errorf("race binary not provided")
 	}
+	pass386(run, prop, progs)
+	counterAcceleration(run, prop)
 	run.Set("explanation", "stateless DFS over every scheduling choice (points: each Mutex.Lock, each atomic op, thread start, each API call and each Stream callback) of 2-3 thread driver programs on the real instrumented Reassembler; states = distinct step traces, transitions = scheduling decisions, traces_validated_against_impl = complete schedules executed on the real code; the data-race clause is discharged separately by a free-running -race pass (sampling, not counted as exhaustive).")
 	run.Assume("scheduling points at lock/atomic/once granularity are sufficient given data-race freedom, which the separate free-running -race pass samples")
 	run.Assume("sequentially consistent memory; virtual clock")
